@@ -2729,7 +2729,9 @@ static int build_response(const tx_t *t, const char *spec, rsp_t *out,
                                                 0x52, 0x56, 0x30, 0x31 };
       *err = "cookie";
       if (strcmp(cookie, "echo") == 0 || strncmp(cookie, "echo:", 5) == 0 ||
-          strcmp(cookie, "bad") == 0) {
+          strcmp(cookie, "bad") == 0 ||
+          (strncmp(cookie, "bad", 3) == 0 && cookie[3] >= '0' &&
+           cookie[3] <= '7' && cookie[4] == 0)) {
         if (t->cookie_len >= 8) {
           memcpy(c, t->cookie, 8);
         } else {
@@ -2737,6 +2739,8 @@ static int build_response(const tx_t *t, const char *spec, rsp_t *out,
         }
         if (strcmp(cookie, "bad") == 0) {
           c[0] ^= 0xFF;
+        } else if (strncmp(cookie, "bad", 3) == 0) {
+          c[cookie[3] - '0'] ^= 0x01; /* bad<k>: one bit of byte k */
         }
         cl = 8;
         if (strncmp(cookie, "echo:", 5) == 0) {
